@@ -159,9 +159,28 @@ def check(rep, tier):
                 rep.case(rec["label"], nontrivial=True)
         except Exception as e:
             rep.violation("rerun-crash %s" % type(e).__name__, "%s re-run raises %r" % (dim, e), dict(dim=dim))
+    plotted = set()
     for rec in recs:
         rep.case(rec["label"], nontrivial=rec["error"] is None, sample=dict(run=rec["label"], steps=rec["nsteps"], error=repr(rec["error"])) if len(rep.samples) < 5 else None)
         judge(rep, rec, cases)
+        if rec["error"] is None and (tier != "quick" or rec["dim"] not in plotted):
+            # presenting the results (the evolution plots) must leave them untouched: the four histories and the table are compared bit for bit
+            plotted.add(rec["dim"])
+            S = rec["S"]
+            try:
+                import matplotlib.pyplot as plt
+                before = [np.array(getattr(S, a), copy=True) for a in ("time", "temp", "iceMassFraction", "shelfTemp")] + [S.results.to_numpy(dtype=float, copy=True)]
+                with impl.quiet():
+                    for what in ("temperature", "ice_mass_fraction"):
+                        S.plot_evolution(what); plt.close("all")
+                after = [np.array(getattr(S, a)) for a in ("time", "temp", "iceMassFraction", "shelfTemp")] + [S.results.to_numpy(dtype=float)]
+                rep.count("plotted-then-reread")
+                for name, a, b in zip(("time", "temp", "iceMassFraction", "shelfTemp", "results"), before, after):
+                    if a.shape != b.shape or not np.array_equal(a, b, equal_nan=True):
+                        rep.violation("results-changed-by-plotting", "%s: after plot_evolution() the reported %s differs from what run() returned (e.g. %r -> %r)" % (
+                            rec["label"], name, a.ravel()[-1], b.ravel()[-1]), dict(run=rec["label"], history=["run", "plot_evolution", "read %s" % name])); break
+            except Exception as e:
+                rep.violation("plot-crash %s" % type(e).__name__, "%s: plot_evolution raises %r" % (rec["label"], e), dict(run=rec["label"]))
     rc, out = common.coq_eval("c13_0", HEAD % coq_list(c for _, c in cases), timeout=900)
     blocks = common.eval_blocks(out)
     if rc != 0 or len(blocks) != 1:
